@@ -236,9 +236,9 @@ def chk_generate(inp):
             if a.choices:
                 vals.append(str(list(a.choices)[int(rng.integers(len(a.choices)))]))
             elif a.type is int:
-                vals.append(str(int(rng.integers(-3, 600))))
+                vals.append(str(int(rng.choice([0, 0, 1, -1, int(rng.integers(-3, 600))]))))
             elif a.type is float:
-                vals.append(repr(float(rng.choice([0.01, -0.5, 2.0, 1e-3, -3.0, 12.25]))))
+                vals.append(repr(float(rng.choice([0.01, -0.5, 2.0, 1e-3, -3.0, 12.25, 0.0, 0.0]))))
             else:
                 vals.append(["name_a", "out.zip", "topic/x", "run_1"][int(rng.integers(4))])
         toks += [opt] + vals
